@@ -71,3 +71,110 @@ Definition chk_long (src dst : addr) (ref total : N) (before : bytes) (lo : N) (
 (* case: one message of [total] parts arriving in [order]: no callback except as listed *)
 Definition chk_order (src dst : addr) (ref total : N) (order : bytes) (exc : list (N * list (list N))) : bool :=
   beq_otrace (run_ids (ordered_segs src dst ref total order)) (Ok (sparse_trace (map (fun _ => 0) order) exc 1)).
+
+(* ---- round 5: many messages open at once, histories of ignored segments,
+   lenient comparison on malformed histories ---- *)
+(* a segment in either form: 0 = 8-bit reference (IEI 0), else 16-bit (IEI 8) *)
+Definition segf (form : N) (src dst : addr) (ref total seq : N) : dsm :=
+  if form =? 0 then
+    {| d_id := 0; d_src := src; d_dst := dst; d_udh := Some [(0, [ref mod 256; total; seq])] |}
+  else seg16 src dst ref total seq.
+
+(* the trace given sparsely against an explicit default per arrival *)
+Fixpoint sparse_over (dflt : list (list (list N))) (exc : list (N * list (list N))) (j : N) : list (list (list N)) :=
+  match dflt with
+  | [] => []
+  | d :: r => (match find_exception exc j with Some x => x | None => d end) :: sparse_over r exc (j + 1)
+  end.
+
+(* message i of an "open" history: its key differs from the others' in the
+   reference (variant 0), in the destination number (variant 1: the decimal
+   digits of lo+i appended) or in the source number (variant 2) *)
+Definition with_no (a : addr) (suffix : bytes) : addr :=
+  {| a_ton := a_ton a; a_npi := a_npi a; a_no := a_no a ++ suffix |}.
+Definition open_seg (form : N) (src dst : addr) (variant lo i total seq : N) : dsm :=
+  if variant =? 0 then segf form src dst ((lo + i) mod 65536) total seq
+  else if variant =? 1 then segf form src (with_no dst (dec_digits (lo + i))) (lo mod 65536) total seq
+  else segf form (with_no src (dec_digits (lo + i))) dst (lo mod 65536) total seq.
+(* the affine permutation j -> (s*j + b) mod K; s is 1 (rotation) or K-1 (reversal + rotation) *)
+Definition aperm (K s b j : N) : N := (s * j + b) mod K.
+Definition aperm_inv (K s b m : N) : N := (s * ((m + K - b mod K) mod K)) mod K.
+(* round q (= sequence number q) brings segment q of every one of the K messages, in the order of its permutation *)
+Fixpoint open_rounds (form : N) (src dst : addr) (variant lo : N) (K : nat) (total q : N) (rounds : list (N * N)) : list dsm :=
+  match rounds with
+  | [] => []
+  | (s, b) :: rest =>
+    map (fun j => open_seg form src dst variant lo (aperm (N.of_nat K) s b (N.of_nat j)) total q) (seq 0 K)
+    ++ open_rounds form src dst variant lo K total (q + 1) rest
+  end.
+(* identities (arrival positions) of the segments of message m, one per round *)
+Fixpoint open_ids (K : N) (m : N) (q : N) (rounds : list (N * N)) : list N :=
+  match rounds with
+  | [] => []
+  | (s, b) :: rest => (q * K + aperm_inv K s b m + 1) :: open_ids K m (q + 1) rest
+  end.
+Definition open_default (K : nat) (rounds : list (N * N)) : list (list (list N)) :=
+  let k := N.of_nat K in
+  match rev rounds with
+  | [] => []
+  | (s, b) :: before =>
+    flat_map (fun _ => repeat [] K) before
+    ++ map (fun j => [open_ids k (aperm k s b (N.of_nat j)) 0 rounds]) (seq 0 K)
+  end.
+(* case: K messages of [length rounds] parts, all open together (every first
+   segment arrives before any second one ...); observed: no callback before the
+   last round, in the last round every arrival delivers its message — except as listed *)
+Definition chk_open (form : N) (src dst : addr) (variant lo : N) (K : nat) (rounds : list (N * N))
+  (exc : list (N * list (list N))) : bool :=
+  let total := N.of_nat (List.length rounds) in
+  beq_otrace (run_ids (open_rounds form src dst variant lo K total 1 rounds))
+             (Ok (sparse_over (open_default K rounds) exc 1)).
+
+(* a run of [n] segments every one of which the combiner must ignore: total
+   by [tm] (0: always 255, 1: i mod 256, 2: scattered), sequence number by
+   [km] (0: zero, 1: total+1, 2: alternating), key by [rm] (0: a new
+   reference each, 1: always the reference lo) *)
+Definition ign_total (tm i : N) : N := if tm =? 0 then 255 else if tm =? 1 then i mod 256 else (i * 37 + 11) mod 256.
+Definition ign_seq (km t i : N) : N :=
+  if km =? 0 then 0 else if km =? 1 then (t + 1) mod 256 else if i mod 2 =? 0 then 0 else (t + 1) mod 256.
+Definition ign_ref (rm lo i : N) : N := if rm =? 0 then (lo + i) mod 65536 else lo.
+Definition ignored_segs (form : N) (src dst : addr) (rm tm km lo : N) (n : nat) : list dsm :=
+  map (fun i => let i := N.of_nat i in let t := ign_total tm i in
+                segf form src dst (ign_ref rm lo i) t (ign_seq km t i)) (seq 0 n).
+Definition listed_segs (form : N) (src dst : addr) (l : list (N * N * N)) : list dsm :=
+  map (fun rts => segf form src dst (fst (fst rts)) (snd (fst rts)) (snd rts)) l.
+(* case: segments [pre], then the ignored run, then segments [post]; observed: no callback except as listed *)
+Definition chk_ignored (form : N) (src dst : addr) (pre : list (N * N * N)) (rm tm km lo : N) (n : nat)
+  (post : list (N * N * N)) (exc : list (N * list (list N))) : bool :=
+  let h := listed_segs form src dst pre ++ ignored_segs form src dst rm tm km lo n ++ listed_segs form src dst post in
+  beq_otrace (run_ids h) (Ok (sparse_over (map (fun _ => []) h) exc 1)).
+
+(* a history in which some key carries malformed numbering, or a PDU carries
+   both concatenation elements: C10/C11 leave open what is done with those
+   (ignored, restarted ...), so only this is compared — the model returns
+   normally, and for every listed key whose segments are all well formed the
+   callbacks at its arrivals are those the model, the reference combiner and
+   the set-style specification make *)
+Definition chk_key_outputs (table : list dsm) (ixs proj : list nat) (ki : nat) (expected : list (list (list N))) : bool :=
+  match pick table ixs, nth_error table ki with
+  | Some h, Some q =>
+    match seg_key q, crun [] (number_from 1 h) with
+    | Some k, Ok (_, outs) => beq_trace (proj_trace proj (ids_of (outputs_at k (number_from 1 h) outs))) expected
+    | _, _ => false
+    end
+  | _, _ => false
+  end.
+Definition chk_history_lenient (table : list dsm) (ixs proj : list nat) (refs : list (nat * list (list (list N)))) : bool :=
+  match pick table ixs with
+  | Some h => match run_ids h with Ok _ => true | _ => false end
+  | None => false
+  end &&
+  forallb (fun kr => chk_key_outputs table ixs proj (fst kr) (snd kr) && chk_reference table ixs proj (fst kr) (snd kr)
+                     && chk_setspec table ixs proj (fst kr) (snd kr)) refs.
+
+(* compact form of a table entry in the generated cases (record syntax with
+   nested records dominated the parse time): addresses as hex strings, the UDH
+   as one string "<key hex><data hex>/<key hex><data hex>..." ([has] = false: nil map) *)
+Definition sg (st sn : N) (sno : string) (dt dn : N) (dno : string) (has : bool) (udh : string) : dsm :=
+  {| d_id := 0; d_src := {| a_ton := st; a_npi := sn; a_no := hx sno |}; d_dst := {| a_ton := dt; a_npi := dn; a_no := hx dno |};
+     d_udh := if has then Some (flat_map (fun s => match hx s with k :: d => [(k, d)] | [] => [] end) (split_slash udh)) else None |}.
